@@ -348,6 +348,15 @@ impl World {
             return Ok((true, false));
         }
         let state_before = self.coll.state();
+        let was_registered = self.registered;
+        // a delete_collection that was parked on the per-name lock (before `begin_delete`) while the handle got closed and
+        // unregistered takes the unregistered path: it is no longer a call on this handle
+        if self.slots[i].api == "delete_collection" && self.slots[i].model_tid.is_some() && !self.registered
+            && !matches!(state_before, CollectionState::Deleting | CollectionState::Deleted)
+        {
+            self.slots[i].model_tid = None;
+            self.hit("delete:handle-unregistered-meanwhile");
+        }
         let blocked_before = self.blocked_now();
         let started0 = self.store.trace.started.load(Ordering::SeqCst);
         let started_in0 = self.store.trace.started_in.load(Ordering::SeqCst);
@@ -471,7 +480,7 @@ impl World {
         // ---- oracle: delete_collection returned Ok ⇒ nothing left
         if fin == "ok" && api == "delete_collection" {
             let left = list_prefix(&self.mem).await;
-            if !left.is_empty() || self.coll.state() != CollectionState::Deleted && self.slots[i].model_tid.is_some() {
+            if !left.is_empty() || self.coll.state() != CollectionState::Deleted && self.slots[i].model_tid.is_some() && was_registered {
                 self.fail("delete:leftover", "delete_collection returned Ok but objects remain under the prefix / handle not DELETED", "empty prefix, state deleted", &format!("{} object(s), state {}", left.len(), state_name(self.coll.state())));
             }
         }
@@ -517,7 +526,9 @@ impl World {
             if fin != "p" {
                 // the model thread has finished: its recorded result must be the result of the whole call
                 // a failure of the database-level tail (its own metadata PUT) is not a result of the handle
-                let st = if status == "ok" || status.starts_with("rej") { status.as_str() } else { "*" };
+                // … and when the inner call was rejected while its tail was parked on the metadata lock, the model decides the
+                // rejection only now, possibly after a further transition: only "rejected" is compared, not the state it names
+                let st = if status == "ok" { "ok" } else if status.starts_with("rej") { "^rej" } else { "*" };
                 let ans = self.answer(st, 0).await;
                 self.lines.push((format!("poll {t} o - {fin}"), ans));
             }
@@ -528,7 +539,10 @@ impl World {
             if fin == "err" && matches!(model_kind(&api), "mut-s" | "mut-x") && state_before != CollectionState::Poisoned && self.coll.state() == CollectionState::Poisoned {
                 acts.push("x".into());
             }
-            if api == "delete_collection" && fin == "err" && flag != "g" && self.coll.state() != CollectionState::Deleted {
+            if api == "delete_collection" && fin == "p" && flag == "b" && !matches!(self.coll.state(), CollectionState::Deleting | CollectionState::Deleted) {
+                // parked on the per-name lock, before `begin_delete`: the model's dropper has not taken its first step
+                self.hit("delete:parked-on-name-lock");
+            } else if api == "delete_collection" && fin == "err" && flag != "g" && self.coll.state() != CollectionState::Deleted {
                 // the database-level part failed (flush_metadata) before drop_data was reached: for the handle this is
                 // a dropper abandoned after begin_delete
                 let ans = self.answer("dropped", 0).await;
@@ -912,7 +926,17 @@ fn check_case(rt: &tokio::runtime::Runtime, name: &str, ops: &[String], model: &
                     _ => {}
                 }
             }
-            let same = if let Some(rest) = ans.strip_prefix("* ") { got.split_once(' ').map(|x| x.1) == Some(rest) } else { &got == ans };
+            let same = if let Some(rest) = ans.strip_prefix("* ") {
+                got.split_once(' ').map(|x| x.1) == Some(rest)
+            } else if let Some(rest) = ans.strip_prefix('^') {
+                // `^<prefix> <rest>`: the status only has to start with <prefix>
+                match (rest.split_once(' '), got.split_once(' ')) {
+                    (Some((pre, r1)), Some((st, r2))) => st.starts_with(pre) && r1 == r2,
+                    _ => false,
+                }
+            } else {
+                &got == ans
+            };
             if ans != "skip" && !same {
                 nd += 1;
                 if record {
@@ -1126,6 +1150,25 @@ fn main() {
             for q in GUARDED {
                 for tr in ["setro 1", "dbro 1", "op close|poll 2", "op close_collection|poll 2", "op delete_collection|poll 2|poll 2", "op db_close|poll 2", "POISON"] {
                     // reconcile_storage always reads the prefix: after one poll it is parked at the backend holding the exclusive gate
+                    let mut ops = vec![setup.to_string(), "op reconcile".into(), "poll 0".into(), format!("op {q}"), "poll 1".into()];
+                    if tr == "POISON" {
+                        ops.push("drop 0".into());
+                    } else {
+                        ops.extend(tr.split('|').map(|s| s.to_string()));
+                        ops.push("run 0".into());
+                    }
+                    ops.push("run 1".into());
+                    ops.push("settle".into());
+                    ops.push("sweep".into());
+                    ops.push("reopen".into());
+                    cases.push((format!("queued:{q}:{tr}"), ops));
+                }
+            }
+        }
+        // (E') close itself parked on the gate when a delete begins / the handle is poisoned: it must not flush
+        for setup in setups {
+            for q in ["close", "close_collection", "db_close"] {
+                for tr in ["op delete_collection|poll 2|poll 2", "POISON", "op add|poll 2|poll 2|drop 2"] {
                     let mut ops = vec![setup.to_string(), "op reconcile".into(), "poll 0".into(), format!("op {q}"), "poll 1".into()];
                     if tr == "POISON" {
                         ops.push("drop 0".into());
